@@ -457,6 +457,17 @@ func (e *Engine) applyContract(fr *Frame, st *State, reach Term, fc *FuncContrac
 			o.Props = rq.Props
 		}
 	}
+	if fc.Decreases != nil && e.FC != nil && e.FC.ID == fc.ID && e.decEntry.S != "" {
+		env := e.newEnv(nil, st)
+		env.bind = bind
+		env.pkg = pkgOfID(fc.ID)
+		d, err := env.evalTerm(fc.Decreases.E)
+		if err != nil {
+			e.contractError(fc.Decreases, err)
+		} else {
+			e.oblige("dec", "dec@"+label, "recursive call decreases "+fc.Decreases.Text, reach, And(Bin(SBool, "<", d, e.decEntry), Bin(SBool, ">=", e.decEntry, IntLit(0))), fc.Decreases)
+		}
+	}
 	old := st.clone()
 	// arguments escape
 	var flatArgs [][]Term
@@ -464,8 +475,15 @@ func (e *Engine) applyContract(fr *Frame, st *State, reach Term, fc *FuncContrac
 		flatArgs = append(flatArgs, e.flat(st, reach, a))
 	}
 	eff := e.P.expandAssigns(fc)
+	type objHavoc struct {
+		ref  Term
+		t    types.Type
+		elem bool
+	}
+	var objs []objHavoc
+	var anyObjs []Term
 	for _, a := range fc.Assigns {
-		if !strings.HasPrefix(a, "*") {
+		if !strings.HasPrefix(a, "*") || len(a) == 1 {
 			continue
 		}
 		pv, ok := bind[strings.TrimPrefix(a, "*")]
@@ -478,21 +496,45 @@ func (e *Engine) applyContract(fr *Frame, st *State, reach Term, fc *FuncContrac
 			t = pv.Dyn
 		}
 		if pt, ok := t.Underlying().(*types.Pointer); ok {
-			eff.comps = append(eff.comps, "H."+typeID(pt.Elem())+".")
-			if sl, ok := pt.Elem().Underlying().(*types.Slice); ok {
-				eff.comps = append(eff.comps, "E."+typeID(sl.Elem())+".")
+			var ref Term
+			if pv.Dyn != nil {
+				ref = pv.L[1]
+			} else {
+				ref = e.flat(st, reach, pv)[0]
 			}
+			objs = append(objs, objHavoc{ref, pt.Elem(), false})
 		} else if sl, ok := t.Underlying().(*types.Slice); ok {
-			eff.comps = append(eff.comps, "E."+typeID(sl.Elem())+".")
+			objs = append(objs, objHavoc{pv.L[0], sl.Elem(), true})
 		} else if _, isIface := t.Underlying().(*types.Interface); isIface {
-			e.note("assigns %s of %s: dynamic type unknown, all heap state havoc'd", a, fc.ID)
-			eff.all = true
+			// dynamic type unknown: the object at that address changes, whatever its type
+			anyObjs = append(anyObjs, pv.L[1])
 		}
 	}
 	if eff.all {
 		st.havocPrefix([]string{""}, true)
 	} else if len(eff.comps) > 0 {
 		st.havocPrefix(eff.comps, true)
+	}
+	for _, ref := range anyObjs {
+		st.havocObject(ref)
+	}
+	// object-granular havoc for "*param"
+	for _, o := range objs {
+		if o.elem {
+			for _, lf := range Layout(o.t) {
+				name := "E." + typeID(o.t) + "." + lf.Path
+				inSort := ArraySort(SInt, lf.Sort)
+				arr := st.comp(name, ArraySort(SInt, inSort))
+				st.setComp(name, e.define("h", Store(arr, o.ref, e.fresh("hv", inSort))))
+			}
+			continue
+		}
+		nv := e.havocVal(reach, "hv", o.t)
+		for i, lf := range Layout(o.t) {
+			name := "H." + typeID(o.t) + "." + lf.Path
+			arr := st.comp(name, ArraySort(SInt, lf.Sort))
+			st.setComp(name, e.define("h", Store(arr, o.ref, nv.L[i])))
+		}
 	}
 	// results
 	res := e.havocVal(reach, "res."+label, resType)
